@@ -24,11 +24,11 @@ func c20Jobs(tier string, seed int64) []string {
 		"index:1:1", "index:3:2", "index:0.25:3",
 		"far:0", "far:3",
 		"mass:2:1:2", "desc:1:3", "desc:0.25:2",
-		"add:2:1:1", "add2d:1:1:1", "index2d:1:0",
+		"add:2:1:1", "add2d:1:1:1", "index2d:1:0", "index2d:1:0:0.5:2", "index2d:1:2:1:1",
 	}
 	if tier == "thorough" {
 		jobs = append(jobs, "index:1:0", "index:10:3", "index:0.5:5", "index:1:8", "index:3:16", "index:10:30", "far:1", "far:8",
-			"mass:3:0.5:1", "mass:4:1:2", "mass:3:3:3", "add:3:1:2", "add:4:0.5:2", "add2d:2:1:1", "index2d:1:1", "index2d:0.5:2")
+			"mass:3:0.5:1", "mass:4:1:2", "mass:3:3:3", "add:3:1:2", "add:4:0.5:2", "add2d:2:1:1", "index2d:1:1", "index2d:0.5:2", "index2d:0.5:1:3:3", "index2d:3:3:1:0")
 	}
 	// floating-point division/floor queries: cvc5 decides them 3-4x faster than z3
 	for i := range jobs {
@@ -242,10 +242,17 @@ func c20Run(job string) {
 			}
 		}
 	case "index2d":
+		// index2d:<xsize>:<xcount>[:<ysize>:<ycount>]  (the y axis defaults to the x axis)
 		size, count := atof(parts[1]), atoi(parts[2])
+		ysize, ycount := size, count
 		x, y, start := grid("x"), grid("y"), grid("start")
-		f := mustGen(fg, "[{x:x,y:y}].binning2d(start,size,count,start,size,count,e->e.x,e->e.y,e->1).values.map(r->r.row)", "x", "y", "start", "size", "count")
-		r := eval(f, value.Float(x), value.Float(y), value.Float(start), value.Float(size), value.Int(count))
+		ystart := start
+		if len(parts) >= 5 {
+			ysize, ycount = atof(parts[3]), atoi(parts[4])
+			ystart = grid("ystart")
+		}
+		f := mustGen(fg, "[{x:x,y:y}].binning2d(start,size,count,ystart,ysize,ycount,e->e.x,e->e.y,e->1).values.map(r->r.row)", "x", "y", "start", "size", "count", "ystart", "ysize", "ycount")
+		r := eval(f, value.Float(x), value.Float(y), value.Float(start), value.Float(size), value.Int(count), value.Float(ystart), value.Float(ysize), value.Int(ycount))
 		sym.Assert(r.ok(), "binning2d-defined")
 		if !r.ok() {
 			return
@@ -263,12 +270,12 @@ func c20Run(job string) {
 		hits := 0
 		for i, row := range rs {
 			vals, ok := floatsOf(row)
-			sym.Assert(ok && len(vals) == count+2, "row-shape")
+			sym.Assert(ok && len(vals) == ycount+2, "row-shape")
 			for j, v := range vals {
 				if v == 1 {
 					hits++
 					sym.Assert(inBin(x, start, size, count, i), "index-law-x")
-					sym.Assert(inBin(y, start, size, count, j), "index-law-y")
+					sym.Assert(inBin(y, ystart, ysize, ycount, j), "index-law-y")
 				}
 			}
 		}
